@@ -277,9 +277,11 @@ def execute(case):
                     rec["warned"] = False
                     return rec
             rec["warned"] = any("being interpolated" in str(x.message) for x in w)
+            raw_dims = [nm.inv().get(d, str(d)) for d in m.dims]
             if set(m.dims) <= set(arr.dims):
                 m = m.transpose(*[d for d in arr.dims if d in m.dims])
             rec["out"] = model.encode_result(m, 1, nm, rational=True)
+            rec["out"]["raw_dims"] = raw_dims          # the order the metric came back in (C12 compares it between runs)
             return rec
         a = case["args"]
         da = model.make_array(a["data"], nm, ds, name="v1")
